@@ -33,8 +33,10 @@ def make_task(rng, kind):
     g = family.draw_group(rng, "_sh")
     if g["kind"] == "soap":
         g["method"] = "eigh"
+    if rng.random() < 0.7:
+        g["start"] = g["freq"]          # short runs: most of them should reach the preconditioned phase
     draw = family.make_draw(rng, [g], dtype="float32", pdtype="float32")
-    n = rng.choice([3, 4])
+    n = rng.choice([4, 5])
     masks, cur = [], [True] * len(shapes)
     for _ in range(n):
         if rng.random() < 0.3:
@@ -227,7 +229,7 @@ def run(ctx):
         ctx.add_tlc(r, f"ShampooDist (one replicate column) R={W} GS={GS}")
         if not r.ok:
             raise tlc.TLCMachineryError(f"ShampooDist column model violates {r.violated}")
-    tasks = attach_spec([make_task(rng, "fsdp") for _ in range(60 if quick else 600)] + [make_task(rng, "hsdp") for _ in range(30 if quick else 300)])
+    tasks = attach_spec([make_task(rng, "fsdp") for _ in range(60 if quick else 600)] + [make_task(rng, "hsdp") for _ in range(40 if quick else 300)])
     tasks = [t for t in tasks if usable(t)]
     results = sp.sim_map(dc.run_shard_task, tasks, lambda r: bool(r.get("crash") or r.get("verdict") or r.get("param_mismatch") or any((r.get("errors") or {}).values())))
     ctx.put("worlds_not_reproduced_on_rerun", sum(1 for r in results if r.get("_flaky_first_run")))
